@@ -176,6 +176,188 @@ class FuncInfo:
         return '<%s:%s>' % (self.rel, self.qualname)
 
 
+def canonical_spelling(tree):
+    """One spelling for constructs that have several with the same meaning (applied to every module as it is parsed;
+    positions are kept, so reports still point at the original line):
+       import numpy [as X]          -> the module is known as `np`   (when `np` is not otherwise bound in the module)
+       dict() / list() / tuple()    -> {} / [] / ()                  (builtins not rebound in the module)
+       range(0, n) / range(0, n, 1) -> range(n)
+       not (a in b) / not (a is b)  -> a not in b / a is not b"""
+    bound = {x.id for x in ast.walk(tree) if isinstance(x, ast.Name) and isinstance(x.ctx, (ast.Store, ast.Del))}
+    bound |= {a.arg for x in ast.walk(tree) if isinstance(x, ast.arguments)
+              for a in x.posonlyargs + x.args + x.kwonlyargs + [y for y in (x.vararg, x.kwarg) if y]}
+    bound |= {x.name for x in ast.walk(tree) if isinstance(x, (ast.FunctionDef, ast.AsyncFunctionDef, ast.ClassDef))}
+    imported = {}
+    for x in ast.walk(tree):
+        if isinstance(x, (ast.Import, ast.ImportFrom)):
+            for a in x.names:
+                imported.setdefault(a.asname or a.name.split('.')[0], []).append((x, a))
+    # numpy under another name
+    others = [nm for nm, lst in imported.items() if nm != 'np' and any(isinstance(x, ast.Import) and a.name == 'numpy' for x, a in lst)]
+    if others and 'np' not in bound and 'np' not in imported and all(len(imported[nm]) == 1 and nm not in bound for nm in others):
+        for nm in others:
+            imported[nm][0][1].asname = 'np'
+        for x in ast.walk(tree):
+            if isinstance(x, ast.Name) and x.id in others:
+                x.id = 'np'
+    free = lambda nm: nm not in bound and nm not in imported
+    for parent in list(ast.walk(tree)):
+        for fld, val in ast.iter_fields(parent):
+            items = val if isinstance(val, list) else [val]
+            for i, x in enumerate(items):
+                new = None
+                if isinstance(x, ast.Call) and isinstance(x.func, ast.Name) and not x.keywords:
+                    if not x.args and x.func.id in ('dict', 'list', 'tuple') and free(x.func.id):
+                        new = {'dict': lambda: ast.Dict(keys=[], values=[]), 'list': lambda: ast.List(elts=[], ctx=ast.Load()),
+                               'tuple': lambda: ast.Tuple(elts=[], ctx=ast.Load())}[x.func.id]()
+                    elif x.func.id == 'range' and free('range') and len(x.args) in (2, 3) \
+                            and isinstance(x.args[0], ast.Constant) and x.args[0].value == 0 and type(x.args[0].value) is int \
+                            and (len(x.args) == 2 or (isinstance(x.args[2], ast.Constant) and x.args[2].value == 1
+                                                      and type(x.args[2].value) is int)):
+                        x.args = [x.args[1]]
+                elif isinstance(x, ast.UnaryOp) and isinstance(x.op, ast.Not) and isinstance(x.operand, ast.Compare) \
+                        and len(x.operand.ops) == 1 and isinstance(x.operand.ops[0], (ast.In, ast.Is)):
+                    new = x.operand
+                    new.ops = [ast.NotIn() if isinstance(new.ops[0], ast.In) else ast.IsNot()]
+                if new is not None:
+                    ast.copy_location(new, x)
+                    if isinstance(val, list):
+                        val[i] = new
+                    else:
+                        setattr(parent, fld, new)
+
+
+_JUMPS = (ast.Return, ast.Raise, ast.Continue, ast.Break)
+_COMPS = (ast.ListComp, ast.SetComp, ast.DictComp, ast.GeneratorExp)
+
+
+def _stmt_blocks(n):
+    for f in ('body', 'orelse', 'finalbody'):
+        b = getattr(n, f, None)
+        if isinstance(b, list) and b and isinstance(b[0], ast.stmt):
+            yield n, f, b
+    for h in getattr(n, 'handlers', None) or []:
+        if h.body:
+            yield h, 'body', h.body
+    for c in getattr(n, 'cases', None) or []:
+        if c.body:
+            yield c, 'body', c.body
+
+
+def _is_empty_container(v):
+    if isinstance(v, ast.List) and not v.elts:
+        return 'list'
+    if isinstance(v, ast.Dict) and not v.keys:
+        return 'dict'
+    if isinstance(v, ast.Call) and isinstance(v.func, ast.Name) and v.func.id == 'set' and not v.args and not v.keywords:
+        return 'set'
+    return None
+
+
+def _loop_as_comprehension(init, loop, fn_names):
+    """`v = []` followed by `for ..: [for .. / if ..:] v.append(e)` -> the comprehension, or None.
+    Conditions: the nest has no else clauses and one leaf statement; v is read nowhere in it but as the receiver; the loop
+    variables are used nowhere else in the enclosing function (a comprehension does not leak them); no lambda captures them."""
+    kind = _is_empty_container(init.value)
+    if kind is None or len(init.targets) != 1 or not isinstance(init.targets[0], ast.Name):
+        return None
+    v = init.targets[0].id
+    gens = []
+    st = loop
+    while True:
+        if isinstance(st, ast.For) and not st.orelse and not getattr(st, 'type_comment', None):
+            gens.append(ast.comprehension(target=st.target, iter=st.iter, ifs=[], is_async=0))
+            body = st.body
+        elif isinstance(st, ast.If) and not st.orelse and gens:
+            gens[-1].ifs.append(st.test)
+            body = st.body
+        else:
+            break
+        if len(body) != 1:
+            return None
+        st = body[0]
+    if not gens:
+        return None
+    leaf = st
+    recv = lambda e: isinstance(e, ast.Name) and e.id == v
+    if kind in ('list', 'set') and isinstance(leaf, ast.Expr) and isinstance(leaf.value, ast.Call) and isinstance(leaf.value.func, ast.Attribute) \
+            and recv(leaf.value.func.value) and leaf.value.func.attr == ('append' if kind == 'list' else 'add') \
+            and len(leaf.value.args) == 1 and not leaf.value.keywords and not isinstance(leaf.value.args[0], ast.Starred):
+        parts = [leaf.value.args[0]]
+        new = (ast.ListComp if kind == 'list' else ast.SetComp)(elt=parts[0], generators=gens)
+    elif kind == 'dict' and isinstance(leaf, ast.Assign) and len(leaf.targets) == 1 and isinstance(leaf.targets[0], ast.Subscript) \
+            and recv(leaf.targets[0].value):
+        parts = [leaf.targets[0].slice, leaf.value]
+        new = ast.DictComp(key=parts[0], value=parts[1], generators=gens)
+    else:
+        return None
+    inner = [x for g in gens for e in [g.iter] + g.ifs for x in ast.walk(e)] + [x for p in parts for x in ast.walk(p)]
+    if any(isinstance(x, ast.Name) and x.id == v for x in inner) or any(isinstance(x, (ast.Lambda, ast.Yield, ast.YieldFrom, ast.Await, ast.NamedExpr))
+                                                                          for x in inner):
+        return None
+    tnames = set()
+    for g in gens:
+        for x in ast.walk(g.target):
+            if isinstance(x, ast.Name):
+                tnames.add(x.id)
+            elif not isinstance(x, (ast.Tuple, ast.List, ast.Store, ast.Load)):
+                return None
+    if v in tnames:
+        return None
+    inside = {id(x) for x in ast.walk(loop)}
+    if any(x.id in tnames and id(x) not in inside for x in fn_names):
+        return None
+    # the first iterable is evaluated outside the comprehension's scope: it must not read a loop variable of its own nest
+    if any(isinstance(x, ast.Name) and x.id in tnames for x in ast.walk(gens[0].iter)):
+        return None
+    return ast.copy_location(new, init.value)
+
+
+def canonical_blocks(tree):
+    """One shape for statement sequences that have several with the same meaning:
+       if c: ..jump  else: REST              -> if c: ..jump ; REST            (jump = return / raise / continue / break)
+       while True: if c: break ; S           -> while not c: S                 (no else clause)
+       v = [] ; for x in it: v.append(e)     -> v = [e for x in it]            (also {} with v[k] = e, set() with v.add(e);
+                                                                                nested for / if without else; see _loop_as_comprehension)"""
+    def scope_names(fn):
+        return [x for x in ast.walk(fn) if isinstance(x, ast.Name)]
+
+    def rewrite(block, fn_names):
+        out = []
+        i = 0
+        while i < len(block):
+            st = block[i]
+            if isinstance(st, ast.If) and st.body and isinstance(st.body[-1], _JUMPS) and st.orelse:
+                rest = st.orelse
+                st.orelse = []
+                block = block[:i + 1] + rest + block[i + 1:]
+            if isinstance(st, ast.While) and not st.orelse and isinstance(st.test, ast.Constant) and st.test.value is True and st.body \
+                    and isinstance(st.body[0], ast.If) and not st.body[0].orelse and len(st.body[0].body) == 1 \
+                    and isinstance(st.body[0].body[0], ast.Break) and len(st.body) > 1:
+                t = st.body[0].test
+                st.test = ast.copy_location(t.operand if isinstance(t, ast.UnaryOp) and isinstance(t.op, ast.Not)
+                                            else ast.UnaryOp(op=ast.Not(), operand=t), t)
+                st.body = st.body[1:]
+            if isinstance(st, ast.Assign) and i + 1 < len(block) and isinstance(block[i + 1], ast.For) and fn_names is not None:
+                new = _loop_as_comprehension(st, block[i + 1], fn_names)
+                if new is not None:
+                    st.value = new
+                    block = block[:i + 1] + block[i + 2:]
+            out.append(st)
+            i += 1
+        return out
+
+    def walk(n, fn_names):
+        if isinstance(n, (ast.FunctionDef, ast.AsyncFunctionDef)):
+            fn_names = scope_names(n)
+        for owner, f, b in list(_stmt_blocks(n)):
+            nb = rewrite(b, fn_names)
+            setattr(owner, f, nb)
+            for st in nb:
+                walk(st, fn_names)
+    walk(tree, None)
+
+
 class Module:
     def __init__(self, rel, source):
         self.rel = rel
@@ -184,6 +366,8 @@ class Module:
             self.tree = ast.parse(source, filename=rel)
         except SyntaxError as e:
             raise AnalysisError('%s does not parse: %s' % (rel, e))
+        canonical_spelling(self.tree)
+        canonical_blocks(self.tree)
         self.funcs = {}
         self.classes = {}
         self.imports = {}       # local name -> dotted origin
